@@ -11,6 +11,9 @@ import argparse, json, os, shutil, subprocess, sys, threading, queue, time, coll
 
 ENV = dict(os.environ, GOFLAGS="-mod=mod", GOPROXY="off", GOSUMDB="off", GOTOOLCHAIN="local", GONOSUMDB="*", CGO_ENABLED="1")
 ROOT = "/tmp/mut"
+BASE = ROOT + "/base"  # snapshot of /repo taken when the sweep starts; /repo itself is never touched or re-read
+# cheapest checks first (quick-tier CPU cost), so that a mutant is usually killed by an inexpensive run
+COST = {"C13": 1, "C04": 2, "C07": 3, "C09": 4, "C02": 5, "C15": 6, "C16": 7, "C14": 8, "C01": 9, "C18": 10, "C06": 11, "C03": 12, "C08": 13, "C12": 14, "C05": 15, "C17": 16, "C11": 17, "C10": 18, "C19": 19, "C20": 20}
 NONRACE = ["C01", "C02", "C03", "C04", "C05", "C06", "C07", "C08", "C09", "C10", "C11", "C12", "C13", "C14", "C15", "C16", "C17", "C18", "C19"]
 
 
@@ -43,7 +46,7 @@ def setup_lane(i):
     os.makedirs(lane + "/v/work")
     os.makedirs(lane + "/v/evidence")
     os.makedirs(lane + "/v/replays")
-    sh(["rsync", "-a", "--exclude", ".git", "/repo/", lane + "/repo/"])
+    sh(["rsync", "-a", BASE + "/", lane + "/repo/"])
     shutil.copy("/verif/KNOWN_FINDINGS.txt", lane + "/v/KNOWN_FINDINGS.txt")
     mod = open("/verif/harness/go.mod").read().replace("=> /repo", "=> " + lane + "/repo")
     open(lane + "/harness.mod", "w").write(mod)
@@ -54,7 +57,7 @@ def setup_lane(i):
 def run_mutant(lane, m, props, workers, allprops):
     rel = m["file"]
     path = f"{lane}/repo/{rel}"
-    orig = open("/repo/" + rel, "rb").read()
+    orig = open(BASE + "/" + rel, "rb").read()
     res = dict(m)
     try:
         mutated = orig[:m["start"]] + m["repl"].encode() + orig[m["end"]:]
@@ -68,8 +71,8 @@ def run_mutant(lane, m, props, workers, allprops):
             res["status"] = "harness-build-failed"
             res["detail"] = out[-400:]
             return res
-        env = dict(ENV, VERIF_DIR=lane + "/v", VERIF_BIN=lane + "/verif", VERIF_WORKERS=str(workers))
-        order = list(props)
+        env = dict(ENV, VERIF_DIR=lane + "/v", VERIF_BIN=lane + "/verif", VERIF_WORKERS=str(workers), VERIF_FAILFAST="1")
+        order = sorted(props, key=lambda p: COST.get(p, 99))
         if allprops:
             order += [p for p in NONRACE if p not in order]
         ran = []
@@ -130,6 +133,8 @@ def main():
     if subprocess.run(["git", "-C", "/repo", "status", "--short"], stdout=subprocess.PIPE).stdout.strip():
         sys.exit("/repo is not clean")
     os.makedirs(ROOT, exist_ok=True)
+    shutil.rmtree(BASE, ignore_errors=True)
+    sh(["rsync", "-a", "--exclude", ".git", "/repo/", BASE + "/"])
     os.makedirs(os.path.dirname(a.out), exist_ok=True)
     rc, out = sh(["go", "build", "-o", ROOT + "/mutgen", "./cmd/mutgen"], cwd="/verif/harness")
     if rc != 0:
@@ -146,7 +151,7 @@ def main():
                 pass
     muts = []
     for f in files:
-        rc, out = sh([ROOT + "/mutgen", "/repo/" + f, f])
+        rc, out = sh([ROOT + "/mutgen", BASE + "/" + f, f])
         if rc != 0:
             print("mutgen failed for", f, out[:200])
             continue
